@@ -4,6 +4,18 @@ import json, os
 PROPS = [json.loads(l)['id'] for l in open('/verif/properties.jsonl')]
 
 CLAIMED = {
+ 'C06': dict(
+   category='proof',
+   text=('PARTIAL proof + exact correspondence. Proved in Coq for EVERY chain length >= 2, bond-dimension profile, local dimension and configuration: the direct-sum '
+         'construction of MPS addition (amplitudes folded into the row-stacked first site, block-diagonal bulk, column-stacked last site) represents x*a + y*b amplitude '
+         'by amplitude, via the transfer-vector recursion used for overlaps, with the block lemmas it rests on. The model (add2/amplitude) is executed on the exported site '
+         'matrices of real integer-valued MPS and must give the amplitudes of the real sum. NOT proved: MPO.MPS / MPO.MPO products, conj/transpose/H/reverse_sites, '
+         'product states, overlaps, <a|O|b> incl. sums of MPOs: compared exactly with NumPy on dense vectors/matrices for every operator family x symmetry, N=1..5, '
+         'non-unit factors and complex scalars, expression trees; zipper / compression / mps_from_tensor (SVD inside) within 1e-9.'),
+   design_ref='DESIGN.md section 6 C06',
+   note=('Trusted: Coq kernel, no axioms; hand-written model tied by correspondence of amplitudes (bond bases of the real sum are ordered by charge sector, so site matrices are '
+         'compared through amplitudes, not entry-wise); periodic MPOs are not exercised yet.'),
+   technique='Coq proof (direct-sum refinement by induction over the chain) + exact NumPy correspondence'),
  'C04': dict(
    category='proof',
    text=('PARTIAL proof + validated premises. Proved in Coq for every symmetry descriptor, all integer charges and all four (nU, sU) branches: the charge assigned '
